@@ -65,6 +65,35 @@ assume func (b *strings.Builder) WriteRune(r rune) (n int, err error)
 
 assume func (b *strings.Builder) String() (s string)
 
+-- what ReproducePrintf asks of fmt: how many Fprint/Fprintf calls, which one last (1 Fprint, 2 Fprintf), with
+-- which single operand and which format
+ghostvar gfpn int
+ghostvar gfpk int
+ghostvar gfpa u
+ghostvar gfpf seq
+ghostvar gfpfl int
+ghostvar gjv bool
+ghostvar grf seq
+ghostvar grfl int
+
+assume func fmt.Fprint(w io.Writer, a ...interface{}) (n int, err error)
+  modifies gfpn, gfpk, gfpa
+  ensures gfpn == old(gfpn) + 1 && gfpk == 1 && (len(a) == 1 ==> gfpa == a[0])
+
+assume func fmt.Fprintf(w io.Writer, format string, a ...interface{}) (n int, err error)
+  modifies gfpn, gfpk, gfpa, gfpf, gfpfl
+  ensures gfpn == old(gfpn) + 1 && gfpk == 2 && sameView(gfpf, format) && gfpfl == len(format) && (len(a) == 1 ==> gfpa == a[0])
+
+-- exactly one call into fmt: Fprint(w, arg) for the bare %v, otherwise Fprintf(w, <the rebuilt directive>, arg);
+-- nothing else renders the operand (in particular no method of the operand is called here)
+func ReproducePrintf(w io.Writer, s fmt.State, verb rune, arg interface{})
+  requires [C14] fstage == 0 && !eplus && !eminus && !esharp && !espace && !ezero && !ehasw && !ehasp
+  modifies fstage, eplus, eminus, esharp, espace, ezero, ehasw, ew, ehasp, ep, everb, glastn, gw, gwp, gp, gpp, gfpn, gfpk, gfpa, gfpf, gfpfl, gjv, grf, grfl, alloc, memU
+  ghost gjv = justV after "justV, revFmt := MakeFormat(s, verb)"
+  ghost grf = revFmt after "justV, revFmt := MakeFormat(s, verb)"
+  ghost grfl = len(revFmt) after "justV, revFmt := MakeFormat(s, verb)"
+  ensures [C14] gfpn == old(gfpn) + 1 && gfpa == arg && (gjv ==> gfpk == 1) && (!gjv ==> gfpk == 2 && sameView(gfpf, grf) && gfpfl == grfl)
+
 func MakeFormat(s fmt.State, verb rune) (justV bool, format string)
   requires [C14] fstage == 0 && !eplus && !eminus && !esharp && !espace && !ezero && !ehasw && !ehasp
   modifies fstage, eplus, eminus, esharp, espace, ezero, ehasw, ew, ehasp, ep, everb, glastn, gw, gwp, gp, gpp
